@@ -9,6 +9,7 @@ import z3
 from . import ops, extract
 from . import keyed as _keyed
 from .ops import exc, is_number
+from .values import FrozenSetE, DictViewE  # noqa: E402
 from .values import (
     Ref, ListE, DequeE, SetE, NumSetE, DictE, ObjE, NdE, SymListE, FuncVal, BoundMethod, ClassVal, BuiltinClass,
     ModuleVal, Builtin, ExcVal, Exc, Opaque, SliceVal, SuperVal, Unknown, Unsupported, EngineError,
@@ -143,6 +144,8 @@ def getattr(I, st, v, name):
                 return
             yield st, exc("AttributeError", "'%s' object has no attribute '%s'" % (e.cls.name, name))
             return
+        if e.__class__ is DictViewE:
+            raise Unsupported("attribute %s of a dictionary view (views only support iteration, len, in)" % name)
         if e.kind in ("list", "deque"):
             yield st, list_method(I, st, v, name)
             return
@@ -236,7 +239,9 @@ def getattr(I, st, v, name):
         if isinstance(m, FuncVal) and "classmethod" in m.decorators():
             yield st, BoundMethod(m, v)
             return
-        yield st, I.thaw(m, st)
+        # a class-level list / dict / set / object is ONE object per path, like a module-level one (thaw_global): what
+        # `Cls.registry.append(x)` or `self.shared.append(x)` puts into it is seen by every later reader
+        yield st, I.thaw_global(m, st)
         return
     if isinstance(v, BuiltinClass):
         if name == "__name__":
@@ -593,7 +598,7 @@ def bind_member(I, st, m, inst, cls):
         if "classmethod" in d:
             return BoundMethod(m, cls)
         return BoundMethod(m, inst)
-    return I.thaw(m, st)
+    return I.thaw_global(m, st)  # a mutable class attribute read through an instance is the class's one object
 
 
 def module_attr(I, st, mv, name):
@@ -760,10 +765,12 @@ def list_method(I, st, ref, name):
             return
         yield st, items.pop(i)
 
-    def _find(st, x):
-        """-> list of (state, index or None); forks on symbolic equality"""
+    def _find(st, x, lo=0, hi=None):
+        """-> list of (state, index or None); forks on symbolic equality.  lo / hi: list.index(x, start, stop) searches
+        items[start:stop] only (slice semantics for negative / out-of-range bounds) and returns the index in the whole list"""
         items = L(st)
-        conds = [M.eq_values(I, st, y, x) for y in items]
+        rng = range(*slice(lo, hi).indices(len(items)))
+        conds = [(M.eq_values(I, st, y, x) if i in rng else False) for i, y in enumerate(items)]
         out = []
         prefix = []
         for i, c in enumerate(conds):
@@ -785,6 +792,8 @@ def list_method(I, st, ref, name):
         return out
 
     def remove(I, st, a, k):
+        if len(a) != 1 or k:
+            raise Unsupported("list.remove takes exactly one argument")
         for s2, i in _find(st, a[0]):
             if i is None:
                 yield s2, exc("ValueError", "list.remove(x): x not in list")
@@ -793,13 +802,17 @@ def list_method(I, st, ref, name):
                 yield s2, None
 
     def index(I, st, a, k):
-        for s2, i in _find(st, a[0]):
+        if k or len(a) > 3 or any(not (isinstance(b, int) or b is None) for b in a[1:]):
+            raise Unsupported("list.index with keyword or symbolic bounds")
+        for s2, i in _find(st, a[0], *(a[1:])):
             if i is None:
                 yield s2, exc("ValueError", "x not in list")
             else:
                 yield s2, i
 
     def count(I, st, a, k):
+        if len(a) != 1 or k:
+            raise Unsupported("list.count takes exactly one argument")
         items = L(st)
         tot = 0
         for y in items:
@@ -823,7 +836,7 @@ def list_method(I, st, ref, name):
         yield st, None
 
     def copy(I, st, a, k):
-        yield st, st.alloc(ListE(L(st)))
+        yield st, st.alloc(type(st.get(ref))(L(st)))  # list.copy() -> list, deque.copy() -> deque
 
     def clear(I, st, a, k):
         del L(st)[:]
@@ -1157,14 +1170,27 @@ def dict_method(I, st, ref, name):
             return
         yield st, d.get(I.hashable(a[0]), default)
 
+    # d.items() / d.keys() / d.values() are LIVE views of d (values.DictViewE), not lists and not snapshots
     def items(I, st, a, k):
-        yield st, st.alloc(ListE([(kk, vv) for kk, vv in D(st).items()]))
+        if a or k:
+            raise Unsupported("dict.items takes no argument")
+        r = st.alloc(DictViewE(ref, "items"))
+        st.get(r)
+        yield st, r
 
     def keys(I, st, a, k):
-        yield st, st.alloc(ListE(list(D(st))))
+        if a or k:
+            raise Unsupported("dict.keys takes no argument")
+        r = st.alloc(DictViewE(ref, "keys"))
+        st.get(r)
+        yield st, r
 
     def values(I, st, a, k):
-        yield st, st.alloc(ListE(list(D(st).values())))
+        if a or k:
+            raise Unsupported("dict.values takes no argument")
+        r = st.alloc(DictViewE(ref, "values"))
+        st.get(r)
+        yield st, r
 
     def update(I, st, a, k):
         d = D(st)
@@ -1273,6 +1299,14 @@ def set_method(I, st, ref, name):
     def S(st):
         return st.get(ref).items
 
+    def same_type(st, items):
+        # s.union(..) / s.copy() ... of a frozenset is a frozenset, of a set a set
+        return st.alloc(FrozenSetE(items) if st.get(ref).frozen else SetE(items))
+
+    if st.get(ref).frozen and name in ("add", "discard", "remove", "update", "difference_update", "intersection_update",
+                                       "symmetric_difference_update", "pop", "clear"):
+        raise Unsupported("frozenset has no method %s (AttributeError in Python)" % name)
+
     def add(I, st, a, k):
         if (is_z3(a[0]) and _plain_number(a[0])) or st.get(ref).kind == "numset":
             yield from numset_add(I, st, ref, a[0])
@@ -1310,21 +1344,21 @@ def set_method(I, st, ref, name):
             for x in I.iterate(src, st):
                 if x not in out:
                     out.append(x)
-        yield st, st.alloc(SetE(out))
+        yield st, same_type(st, out)
 
     def intersection(I, st, a, k):
         out = list(S(st))
         for src in a:
             other = I.iterate(src, st)
             out = [x for x in out if x in other]
-        yield st, st.alloc(SetE(out))
+        yield st, same_type(st, out)
 
     def difference(I, st, a, k):
         out = list(S(st))
         for src in a:
             other = I.iterate(src, st)
             out = [x for x in out if x not in other]
-        yield st, st.alloc(SetE(out))
+        yield st, same_type(st, out)
 
     def difference_update(I, st, a, k):
         # s.difference_update(*others): remove every element found in any of the others (in place, returns None)
@@ -1338,7 +1372,7 @@ def set_method(I, st, ref, name):
         yield st, all(x in other for x in S(st))
 
     def copy(I, st, a, k):
-        yield st, st.alloc(SetE(S(st)))
+        yield st, same_type(st, S(st))
 
     def symmetric_difference(I, st, a, k):
         # s.symmetric_difference(other): elements in exactly one of the two (exactly one argument; concrete keys only)
@@ -1352,7 +1386,7 @@ def set_method(I, st, ref, name):
                 other.append(x)
         if any(is_z3(x) for x in mine + other) or st.get(ref).kind == "numset":
             raise Unsupported("set.symmetric_difference over symbolic elements")
-        yield st, st.alloc(SetE([x for x in mine if x not in other] + [x for x in other if x not in mine]))
+        yield st, same_type(st, [x for x in mine if x not in other] + [x for x in other if x not in mine])
 
     tbl = dict(add=add, discard=discard, remove=remove, update=update, union=union, intersection=intersection,
                difference=difference, difference_update=difference_update, issubset=issubset, copy=copy,
@@ -1589,8 +1623,20 @@ def call_builtin_class(I, st, c, args, kwargs):
         yield st, ExcVal(c, args)
         return
     if n == "int":
+        if len(args) > 1 or kwargs:
+            # int(text, base): python's own conversion on concrete arguments (the base must not be dropped)
+            base = args[1] if len(args) > 1 else kwargs.get("base")
+            if len(args) > 2 or set(kwargs) - {"base"} or not args or not isinstance(args[0], str) or not isinstance(base, int) or isinstance(base, bool):
+                raise Unsupported("int() with these arguments")
+            try:
+                yield st, int(args[0], base)
+            except ValueError as e:
+                yield st, exc("ValueError", str(e))
+            return
         yield from to_int(I, st, args[0] if args else 0)
     elif n == "float":
+        if len(args) > 1 or kwargs:
+            raise Unsupported("float() with more than one argument")
         yield from to_float(I, st, args[0] if args else Fraction(0))
     elif n == "bool":
         yield st, I.truth(args[0], st) if args else False
@@ -1645,7 +1691,8 @@ def call_builtin_class(I, st, c, args, kwargs):
             I.hashable(x)
             if x not in items:
                 items.append(x)
-        yield st, st.alloc(SetE(items))
+        # frozenset(...) is immutable and is not a `set` (values.FrozenSetE)
+        yield st, st.alloc(FrozenSetE(items) if n == "frozenset" else SetE(items))
     elif n == "dict":
         d = {}
         if args:
@@ -1683,6 +1730,10 @@ def type_of(I, st, v):
         e = st.get(v)
         if e.kind == "obj":
             return e.cls
+        if e.__class__ is DictViewE:
+            raise Unsupported("type() of a dictionary view")
+        if e.kind == "set" and e.frozen:
+            return BuiltinClass("frozenset", frozenset)
         return BuiltinClass({"list": "list", "dict": "dict", "set": "set", "nd": "ndarray", "deque": "deque", "symlist": "list"}[e.kind])
     if isinstance(v, HObj):
         return v.cls
@@ -1738,8 +1789,10 @@ def to_int(I, st, v):
                 raise Unsupported("__int__ returning a bool")
             else:
                 yield st1, exc("TypeError", "__int__ returned non-int")
+    elif v is None or isinstance(v, tuple) or (isinstance(v, Ref) and st.get(v).kind in ("list", "dict", "set")):
+        yield st, exc("TypeError", "int() argument must be a string, a bytes-like object or a real number")
     else:
-        yield st, exc("TypeError", "int() argument")
+        raise Unsupported("int() of %r" % (v,))  # bytes, float('inf') (OverflowError), objects with __index__ / __trunc__ ...
 
 
 def _FmtStr():
@@ -1808,10 +1861,12 @@ def to_float(I, st, v):
         yield st, to_frac(f)
     elif is_z3(v) and z3.is_int(v):
         yield st, z3.ToReal(v)
-    elif is_z3(v):
+    elif is_z3(v) and z3.is_real(v):
         yield st, v
+    elif v is None or isinstance(v, tuple) or (isinstance(v, Ref) and st.get(v).kind in ("list", "dict", "set")):
+        yield st, exc("TypeError", "float() argument must be a string or a real number")
     else:
-        yield st, exc("TypeError", "float() argument")
+        raise Unsupported("float() of %r" % (v,))  # objects with __float__ / __index__, bytes, inf ...
 
 
 def make_range(I, st, args):
@@ -1933,15 +1988,15 @@ def make_builtins(I):
                 if all(isinstance(x, str) for x in items):
                     yield st, (min(items) if which == "min" else max(items))
                     return
-                if any(isinstance(x, Ref) for x in items):
-                    # e.g. max(2-d array): rows are compared with <, whose truth value is ambiguous (ValueError); lists
-                    # compare lexicographically
-                    raise Unsupported("%s() over containers / arrays" % which)
                 if any(isinstance(x, Opaque) for x in items):
                     # e.g. max(nan, 1.0) is nan but max(1.0, nan) is 1.0 in CPython (every comparison with NaN is False)
                     raise Unsupported("%s() over an uninterpreted value (nan)" % which)
-                yield st, exc("TypeError", "unorderable types in %s()" % which)
-                return
+                if all(x is None or is_number(x) or isinstance(x, str) for x in items):
+                    yield st, exc("TypeError", "unorderable types in %s()" % which)  # numbers mixed with str / None
+                    return
+                # e.g. max(2-d array): rows are compared with <, whose truth value is ambiguous (ValueError); lists compare
+                # lexicographically; objects by __lt__
+                raise Unsupported("min/max over values ordered by something else than numbers (lists, arrays, objects with __lt__, ...)")
             # min / max return one of their ARGUMENTS, with its own type: max(0, x) is the int 0 or the float x.  Arguments
             # of one kind are merged into one term; an int against a float splits the path (the merged term would be a
             # real whatever the outcome, and isinstance / `//` on it would see a float)
@@ -1979,6 +2034,9 @@ def make_builtins(I):
         for x in items:
             nxt = []
             for s1, t in cur:
+                if isinstance(t, Exc):  # an addition already raised on this path: sum() stops there
+                    nxt.append((s1, t))
+                    continue
                 for s2, r in M.binop(I, s1, "Add", t, x):
                     nxt.append((s2, r))
             cur = nxt
@@ -2277,6 +2335,8 @@ def make_builtins(I):
 
     def _next(I, st, a, k):
         v = a[0]
+        if isinstance(v, Ref) and st.get(v).kind == "list" and getattr_py(st.get(v), "__class__").__name__ != "IterE":
+            raise Unsupported("next() on something that is not an iterator object (TypeError in Python for a list)")
         if isinstance(v, Ref) and st.get(v).kind == "list":
             items = st.get(v).items
             if items:
@@ -2494,8 +2554,13 @@ def isinstance_model(I, st, v, cls):
             if isinstance(cls, BuiltinClass) and cls.name == "dict" and "__dictdata__" in e.attrs:
                 return True
             return isinstance(cls, BuiltinClass) and cls.name == "object"
-        kind = {"list": ("list",), "deque": ("deque",), "dict": ("dict",), "set": ("set", "frozenset"), "nd": ("ndarray",),
-                "symlist": ("list",)}[e.kind]
+        if e.__class__ is DictViewE:
+            if isinstance(cls, BuiltinClass) and cls.name in ("list", "tuple", "dict", "set", "frozenset", "str", "int", "float", "bool", "NoneType", "ndarray", "deque"):
+                return False  # a view is none of these
+            raise Unsupported("isinstance of a dictionary view")
+        # a frozenset is not a set and a set is not a frozenset (neither class derives from the other)
+        kind = {"list": ("list",), "deque": ("deque",), "dict": ("dict",), "set": (("frozenset",) if (e.kind == "set" and e.frozen) else ("set",)),
+                "nd": ("ndarray",), "numset": ("set",), "symlist": ("list",)}[e.kind]
         return isinstance(cls, BuiltinClass) and (cls.name in kind or cls.name == "object")
     if isinstance(v, HObj):
         if isinstance(cls, ClassVal) and v.cls is not None:
@@ -2533,7 +2598,7 @@ def isinstance_model(I, st, v, cls):
     if isinstance(v, ExcVal):
         return I.is_subclass(v.cls, cls)
     if isinstance(v, (frozenset,)):
-        return n in ("frozenset", "set")
+        return n == "frozenset"  # frozenset does not derive from set
     from .symex import FrozenList, FrozenDict, FrozenNd
 
     if isinstance(v, FrozenList):
@@ -2802,6 +2867,10 @@ def make_ext_modules(I):
                 if I.class_lookup(e.cls, hook)[0] is not None:
                     raise Unsupported("copy.copy of an object with %s" % hook)
             attrs = dict(e.attrs)
+            if "__list__" in attrs:
+                # copy.copy of a list subclass instance: copyreg rebuilds it from its items - a NEW list payload with the same
+                # elements (the two instances must not share one payload)
+                attrs["__list__"] = st.alloc(ListE(list(st.get(attrs["__list__"]).items)))
             if "__dictdata__" in attrs:
                 # copy.copy of a dict subclass instance: a new mapping with the same entries (copyreg: dictitems)
                 attrs["__dictdata__"] = st.alloc(DictE(dict(st.get(attrs["__dictdata__"]).items)))
@@ -2930,7 +2999,14 @@ def make_ext_modules(I):
                     S[0].get(new).items = items
                 return new
             if isinstance(v, tuple):
-                return tuple(dc(x) for x in v)
+                # copy._deepcopy_tuple: a tuple whose items are all returned unchanged (immutable content) IS its own deep
+                # copy - the same object, not an equal one; a namedtuple is rebuilt as a namedtuple
+                items = [dc(x) for x in v]
+                if all(c is x for c, x in zip(items, v)):
+                    return v
+                if isinstance(v, M.NamedTuple):
+                    return M.NamedTuple(items, v.fields, v.clsval)
+                return tuple(items)
             if isinstance(v, ObjDict):
                 # deepcopy(obj.__dict__): a plain dict holding deep copies of the instance attributes
                 return S[0].alloc(DictE({kk: dc(x) for kk, x in v.attrs(S[0]).items()}))
